@@ -69,6 +69,11 @@ pub fn main(args: &[String]) {
         mods.push((t.to_string(), false, opa(vec![])));
         extra.push(Some(("empty-enum".into(), "    pub enum XtNever {}\n    impl XtNever {\n        pub fn describe(self) -> u8 { unimplemented!() }\n    }\n".into())));
     }
+    // an indexer keyed by a string (C++ and Python index by anything; F46: kotlin insists on an integer by panicking)
+    for t in BACKENDS {
+        mods.push((t.to_string(), false, opa(vec![])));
+        extra.push(Some(("string-indexer".into(), "    #[diplomat::opaque]\n    pub struct XtShelf(u8);\n    impl XtShelf {\n        #[diplomat::attr(auto, indexer)]\n        pub fn at<'a>(&'a self, key: &'a DiplomatStr) -> Option<u8> { unimplemented!() }\n    }\n".into())));
+    }
     for i in 0..n {
         let target = BACKENDS[i % BACKENDS.len()];
         let unsafe_refs = i % 5 == 0;
